@@ -612,23 +612,29 @@ class iindex(dict):
         # This takes some RAM but only O(rows), not subvars etc.
         dtype = fit_dtype(max(precedence), min(min(precedence), 0))
         default = precedence[-1]
+        # A value listed more than once counts where it is listed first.
+        head = []
+        for coord in precedence[:-1]:
+            if coord not in head:
+                head.append(coord)
         output = numpy.full(numrows, default, dtype=dtype)
         common_has_been_written = True
-        if default != new_common:
+        if default != new_common or new_common in head:
             # We filled the output with the lowest-precedence coord.
             # If that's NOT the common value, then we need to keep track
             # of which rows have explicitly obtained an uncommon value.
             common_has_been_written = False
             common_count = numpy.full(numrows, numcols, dtype=fit_dtype(numcols))
-            for rowids in gathered.get(default, []):
-                common_count[rowids] -= 1
+            if default not in head:
+                for rowids in gathered.get(default, []):
+                    common_count[rowids] -= 1
             # Cells holding a value that `precedence` does not mention are not
             # common cells either.
             for coord, rowid_lists in gathered.items():
                 if coord not in precedence:
                     for rowids in rowid_lists:
                         common_count[rowids] -= 1
-        for coord in reversed(precedence[:-1]):
+        for coord in reversed(head):
             if coord == new_common:
                 # Rows which already have ALL values at a lower precedence
                 # stay that way; any others get the common value for now,
